@@ -168,7 +168,27 @@ func (s *PersistentHybridIndex) writeIndexToSegment(
 	}
 
 	// Write index to files
-	if err := idx.WriteTo(hybridGz, vectorGz, textGz, metadataGz); err != nil {
+	err = idx.WriteTo(hybridGz, vectorGz, textGz, metadataGz)
+
+	// Close gzip writers and files to ensure all data is flushed
+	// A failed close means the data did not reach the file
+	closers := []io.Closer{hybridGz, hybridFile}
+	if vectorFile != nil {
+		closers = append(closers, vectorGz, vectorFile)
+	}
+	if textFile != nil {
+		closers = append(closers, textGz, textFile)
+	}
+	if metadataFile != nil {
+		closers = append(closers, metadataGz, metadataFile)
+	}
+	for _, c := range closers {
+		if closeErr := c.Close(); closeErr != nil && err == nil {
+			err = closeErr
+		}
+	}
+
+	if err != nil {
 		// Clean up partial files on error
 		os.Remove(hybridPath)
 		if vectorFile != nil {
@@ -182,18 +202,6 @@ func (s *PersistentHybridIndex) writeIndexToSegment(
 		}
 		return fmt.Errorf("failed to write index: %w", err)
 	}
-
-	// Close gzip writers
-	if vectorGz != nil {
-		vectorGz.Close()
-	}
-	if textGz != nil {
-		textGz.Close()
-	}
-	if metadataGz != nil {
-		metadataGz.Close()
-	}
-	hybridGz.Close()
 
 	return nil
 }
